@@ -58,7 +58,7 @@ def do_run(ids, extra_props=()):
         try:
             for p in (prop,) + tuple(extra_props):
                 t = time.time()
-                rc, out = sh([os.path.join(V, 'check'), p], cwd=V, timeout=1800)
+                rc, out = sh('VERIF_EVIDENCE_DIR=%s/out/evidence_seeded %s/check %s' % (V, V, p), cwd=V, timeout=1800)
                 lines = [l for l in out.splitlines() if l.startswith(('VIOLATION', 'UNDECIDED', 'CHECKER-LIMIT', 'PROOF'))]
                 res[(sid, p)] = (rc, lines)
                 print(sid, p, 'exit', rc, '%.0fs' % (time.time() - t))
